@@ -58,6 +58,27 @@ def run (E : List (Nat × Nat)) (F : Flow α) : Nat → WL α → WL α
     | [] => s
     | _ :: _ => run E F fuel (step E F s)
 
+/-! A fuel bound for `run`, computed from the graph and the gen sets alone (proved sufficient in `Proofs/C06Worklist.lean`:
+`run_terminates`).  It is exponential in the number of nodes because the algorithm is: a child that is not yet in `closed` is
+appended at every visit of a predecessor, also when it is already waiting, so the join behind `k` consecutive if/else
+statements is visited `2^k` times. -/
+
+/-- every node the work-list can ever hold -/
+def nodesOf (E : List (Nat × Nat)) (start : List Nat) : List Nat := start ++ E.map (·.1) ++ E.map (·.2)
+
+/-- every fact the solution can ever hold -/
+def factsOf (E : List (Nat × Nat)) (start : List Nat) (F : Flow α) : List α := (nodesOf E start).flatMap F.gen
+
+/-- what one waiting entry can still cause while `u` nodes are unvisited, `D` bounding the number of children -/
+def gW (D : Nat) : Nat → Nat
+  | 0 => 1
+  | u + 1 => gW D u + D * gW D u + 1
+
+def fuelBound (E : List (Nat × Nat)) (start : List Nat) (F : Flow α) : Nat :=
+  let Ns := nodesOf E start
+  start.length * gW E.length Ns.length +
+    (E.length * gW E.length (Ns.length + 1)) * (Ns.length * (factsOf E start F).length)
+
 omit [DecidableEq α] in
 theorem mem_joinAt (E : List (Nat × Nat)) (B : St α) (n : Nat) (a : α) :
     a ∈ joinAt E B n ↔ ∃ p, (p, n) ∈ E ∧ a ∈ B p := by
